@@ -32,6 +32,19 @@ out=$(./run.sh $PROP quick 2>&1); rc=$?
 git -C /repo checkout -- . 
 det="MISSED"; [ $rc -eq 1 ] && det="DETECTED"
 rule=$(echo "$out" | grep -A1 "^VIOLATION" | grep "kind=" | head -3 | sed 's/^ *//' | tr '\n' '|')
+python3 - "$NAME" "$PROP" "$det" "$rule" <<'PY'
+import json,sys,os,re
+name,prop,det,rule=sys.argv[1:5]
+p='/verif/seeded/'+name
+notes=open(p+'/notes.txt').read() if os.path.exists(p+'/notes.txt') else ''
+meta={"name":name,"property":prop,"source":"independent sub-agent given only the property text and a scratch worktree",
+ "files_changed":sorted(set(re.findall(r'^\+\+\+ b/(\S+)',open(p+'/patch.diff').read(),re.M))),
+ "demonstration":open(p+'/demo_test.go').readline().strip(),
+ "needs_to_manifest":notes.strip().split('\n\n')[0][:900],
+ "confirmed_by":"tools/seedcheck.sh: fresh worktree of /repo HEAD; git apply; go build ./...; go test -vet=off -count=1 ./... passes; demonstration fails with the change and passes without it",
+ "check_result":det,"rules_fired":rule}
+json.dump(meta,open(p+'/meta.json','w'),indent=1)
+PY
 echo "RESULT $NAME: confirmed (applies, builds, suite passes, demo fails with / passes without); $PROP quick => $det $rule"
 
 
